@@ -666,9 +666,20 @@ func runSBatchSeq(g *gen, count, toCoq int, seed uint64, st *vx.Stats, addCase f
 		w := newWorldB(bviews)
 		a := newActor(w)
 		var obs []ret
-		for _, c := range script {
-			r, _ := a.exec(c)
+		stuck := -1
+		for i, c := range script {
+			r, _, returned := a.execWatched(c, 10*time.Second)
+			if !returned {
+				stuck = i
+				break
+			}
 			obs = append(obs, r)
+		}
+		if stuck >= 0 {
+			st.Fail(map[string]any{"kind": "hang", "mode": "sbatch-seq", "seed": seed, "index": n, "batch_views": bviews, "script": script[:stuck+1],
+				"what": "a single goroutine, one call after the other (batch objects reused after Commit/Cancel): the last call of the script never returns (10 s)"})
+			st.Count("sbatch-seq:hang")
+			return // every later script would block the same way; the free-running families have their own watchdogs
 		}
 		// sequential composition: batch content + store
 		s := gstate{map[string]string{}, false}
